@@ -38,7 +38,7 @@ STR_OPS = {'lower', 'upper', 'strip', 'split', 'startswith', 'endswith', 'encode
 
 
 def check(run, ctx):
-    run.each(ctx, [r1, r2, r3, r4, r5, r6, r7, r8])
+    run.each(ctx, [r1, r2, r3, r4, r5, r6, r7, r8, r10])
 
 
 # -- R1 -----------------------------------------------------------------------
@@ -725,3 +725,26 @@ def r8(run, ctx):
                 again = p.id in r
                 run.check('R9', not again, 'an expired poll leaves the loop by raising', f, p.ast,
                           'after a timeout the client polls again instead of reporting it')
+
+
+def r10(run, ctx):
+    run.rule('R10', 'the daemon stops its loop only through a deferred callback')
+    # the reply of a waiting quit / restart / reloadconfig is sent from a done-callback of the
+    # operation's future, which the loop runs one iteration AFTER the coroutine finished: a
+    # loop.stop() called inside the coroutine ends the loop before that iteration, a deferred
+    # one (loop.add_callback(loop.stop)) is queued behind the reply
+    from rules.common import loop_stop_nodes
+    n = 0
+    for f in ctx.p.all_functions():
+        if not (f.key.startswith('circus.arbiter:') or f.key.startswith('circus.controller:')
+                or f.key.startswith('circus.commands.')):
+            continue
+        for node, deferred in loop_stop_nodes(ctx, f):
+            n += 1
+            run.check('R10', deferred, '%s stops the loop through add_callback' % f.qualname,
+                      f, node.ast,
+                      '%s calls loop.stop() directly: the loop ends with the iteration in which '
+                      'the operation finished, the done-callback that sends the reply of a waiting '
+                      'quit/restart is never run and the client times out' % f.qualname,
+                      construct='loop stopped synchronously')
+    run.count('R10', n, 3, 'loop-stop sites in arbiter/controller/commands')
